@@ -76,6 +76,23 @@ def cases(tier, seed):
                 for pi, pol in enumerate([{"kind": "fifo"}, {"kind": "random", "early": 0.5}]):
                     out.append({"id": [si, fsid, req, k, kind, "mixed_slow_finalize", pi], "scn": S.normalize(scn), "seed": rng.randrange(10**6),
                                 "behaviour": {"kind": "faultplan", "plan": plan, "p_event": 0.8, "ev_next": [None, 1]}, "policy": pol})
+    # a failure at a request that mosaik passes on FOR ANOTHER simulator: the agent Sb asks for Sa's data during its own step
+    # (asynchronous get_data, cache off so that the request really reaches Sa), and Sa fails at exactly that request - Sa is the
+    # failed simulator; the healthy agent (and the bystander Sc) still receive stop / finalize exactly once
+    abase = {"sims": [{"sid": "Sa", "type": "time-based"}, {"sid": "Sb", "type": "time-based"}, {"sid": "Sc", "type": "time-based"}],
+             "conns": [{"src": "Sa", "dst": "Sb", "sa": "p", "da": "i", "async": True}, {"src": "Sa", "dst": "Sc", "sa": "p2", "da": "i"}], "until": 4, "cache": False}
+    agents = {"Sb": {"target": "Sa", "attr": "i", "p": 0.5, "get": "p2"}}
+    for tr in ({"Sa": "async", "Sb": "async", "Sc": "async"}, {"Sa": "local", "Sb": "local", "Sc": "local"}, {"Sa": "remote", "Sb": "local", "Sc": "async"},
+               {"Sa": "async", "Sb": "local", "Sc": "remote"}):
+        for k in (1, 2):
+            for lazy in (True, False):
+                kind = {"remote": "eof", "async": "raise", "local": "raise"}[tr["Sa"]]
+                scn = dict(abase, lazy=lazy, sims=[dict(x, transport=tr[x["sid"]], **({"gen": True} if tr[x["sid"]] == "local" else {})) for x in abase["sims"]])
+                plan = {"sid": "Sa", "req": "get_data", "k": k, "kind": kind, "forwarded": True}
+                for pi, pol in enumerate([{"kind": "fifo"}, {"kind": "random", "early": 0.5}]):
+                    for sd in range(3):
+                        out.append({"id": ["forwarded", sorted(tr.items()), k, lazy, pi, sd], "scn": S.normalize(scn), "seed": rng.randrange(10**6),
+                                    "behaviour": {"kind": "faultplan", "plan": plan, "agents": agents, "tb_next": [1]}, "policy": pol})
     return out
 
 
